@@ -218,6 +218,50 @@ func c02One(hid int, l []logEntry, rec *recorder, cuts []int) {
 			ev["diffqueries"] = diffQueries(oa, ob)
 		}
 		rec.emit(ev)
+		// the same cut with the snapshot CAPTURED at the cut but written out only after later entries were applied
+		// (Replicas!Take / Install: a snapshot stands for the log prefix it was taken at, whenever it is persisted)
+		if k < len(l) {
+			c := sh.New()
+			for _, e := range l[:k] {
+				applyEntry(c, e)
+			}
+			held, err := c.SnapshotTake()
+			if err != nil {
+				fatal("snapshot: %v", err)
+			}
+			late := k + 4
+			if late > len(l) {
+				late = len(l)
+			}
+			for _, e := range l[k:late] {
+				applyEntry(c, e)
+			}
+			lateBytes, err := sh.PersistSnapshot(held)
+			if err != nil {
+				fatal("persist: %v", err)
+			}
+			d := sh.New()
+			if err := d.Restore(lateBytes); err != nil {
+				rec.emit(M{"h": hid, "i": k, "cut": k, "idx": 0, "desc": "restore of a late-persisted snapshot failed: " + err.Error(),
+					"res": []string{"ok", "restore-error"}, "dump": []string{"", ""}, "q": []string{"", ""}})
+			} else {
+				dd := sh.DumpNorm(d.Store())
+				ev := M{"h": hid, "i": k, "cut": k, "idx": 0, "desc": fmt.Sprintf("snapshot captured at cut %d, persisted after entry %d, restored", k, late),
+					"res":  []string{"", ""},
+					"dump": []string{sh.Digest(db), sh.Digest(dd)},
+					"q":    []string{sh.BatteryDigest(sh.Observe(b.Store(), qs)), sh.BatteryDigest(sh.Observe(d.Store(), qs))}}
+				if db != dd {
+					ev["diff"] = firstDiff(db, dd)
+					ev["difftables"] = diffTables(db, dd)
+				}
+				if ev["q"].([]string)[0] != ev["q"].([]string)[1] {
+					ob, od := sh.Observe(b.Store(), qs), sh.Observe(d.Store(), qs)
+					ev["qdiff"] = queryDiff(ob, od)
+					ev["diffqueries"] = diffQueries(ob, od)
+				}
+				rec.emit(ev)
+			}
+		}
 		for j, e := range l[k:] {
 			ra, rb := applyEntry(a, e), applyEntry(b, e)
 			da, db := sh.DumpNorm(a.Store()), sh.DumpNorm(b.Store())
